@@ -616,6 +616,19 @@ FIXED_DDL = [
 ]
 
 
+def load_robust(R, sdl, stats):
+    try:
+        return R.load(sdl), False
+    except Exception as e1:
+        try:
+            sch = R.load_as_ddl(sdl)
+        except Exception:
+            raise e1
+        stats[f'apply_sdl rejected the generated order ({type(e1).__name__}); schema obtained '
+              f'declaration by declaration as DDL'] += 1
+        return sch, True
+
+
 def migration_key(R, schema, exc, case_id):
     """`sdl-migration-fails:alias-of-policied-base:…` only for the root cause that was analysed
     (an alias over an object type one of whose descendants — or the type itself — owns an access
@@ -724,6 +737,62 @@ class Real:
             context = self.sd.CommandContext()
             context.testmode = True
             schema = plan.apply(schema, context)
+        return schema
+
+    def load_as_ddl(self, sdl):
+        """Fallback when apply_sdl rejects a text whose declarations are written referenced-first:
+        every top-level SDL declaration, in DOCUMENT order, is printed as the equivalent DDL command
+        (the SDL parser builds the same Create* nodes) and applied on its own in a session whose
+        current module is the declaration's module — no pass through sdl_to_ddl's ordering."""
+        qlast = self.qlast
+        doc = self.qlparser.parse_sdl(sdl)
+        schema = self.std
+        seen_mods = set()
+
+        def apply(stmt_text, mod):
+            nonlocal schema
+            for stmt in self.edgeql.parse_block(stmt_text):
+                plan = self.s_ddl.delta_from_ddl(stmt, schema=schema, modaliases={None: mod}, testmode=True)
+                context = self.sd.CommandContext()
+                context.testmode = True
+                schema = plan.apply(schema, context)
+
+        pending = []
+
+        def walk(decls, mod):
+            for d in decls:
+                if isinstance(d, qlast.ModuleDeclaration):
+                    m = d.name.name if mod is None else f'{mod}::{d.name.name}'
+                    parts = m.split('::')
+                    for i in range(1, len(parts) + 1):
+                        mm = '::'.join(parts[:i])
+                        if mm not in seen_mods:
+                            seen_mods.add(mm)
+                            apply(f'create module {mm} if not exists;', 'default')
+                    walk(d.declarations, m)
+                else:
+                    if mod is not None and isinstance(getattr(d, 'name', None), qlast.ObjectRef) \
+                            and not d.name.module:
+                        d.name.module = mod
+                    pending.append((self.edgeql.generate_source(d, pretty=False) + ';', mod or 'default'))
+
+        if 'default' not in seen_mods:
+            seen_mods.add('default')
+            apply('create module default if not exists;', 'default')
+        walk(doc.declarations, None)
+        # document order; a declaration that refers to a later one is retried after the others
+        last_err = None
+        while pending:
+            rest = []
+            for stmt_text, mod in pending:
+                try:
+                    apply(stmt_text, mod)
+                except self.errors.EdgeDBError as e:
+                    last_err = e
+                    rest.append((stmt_text, mod))
+            if len(rest) == len(pending):
+                raise last_err
+            pending = rest
         return schema
 
     def build_scope(self, text):
@@ -1455,9 +1524,9 @@ def schema_cases(ctx):
         cases.append((f'dep-positions{i}', c03_exprgen.dep_schema(
             ctx.rng, positions=list(c03_exprgen.DEP_POS) + ['link-default', 'property-default', 'rewrite'])[0],
             'dep'))
-    n = ctx.budget(8, 200)
+    n = ctx.budget(7, 200)
     for i in range(n):
-        size = ctx.rng.choice([1, 1, 2, 2, 3, 4] if ctx.quick() else [1, 2, 3, 4, 6, 8])
+        size = ctx.rng.choice([1, 1, 2, 2, 3] if ctx.quick() else [1, 2, 3, 4, 6, 8])
         sdl, g = gen_schema(ctx.rng, size)
         cases.append((f'gen{i}', sdl, g))
     return cases
@@ -1525,10 +1594,17 @@ def run(ctx: core.Ctx):
     n_eval = 0
     rejected = 0
     name_lines = 0
+    case_time = {}
+    t_case = time.time()
+    prev_tag = None
     for ci, (tag, sdl, g) in enumerate(cases):
+        if prev_tag is not None:
+            case_time[prev_tag] = round(time.time() - t_case, 1)
+        prev_tag, t_case = tag, time.time()
         t0 = time.time()
         build = 'sdl'
         is_dep = False
+        via_fallback = False
         try:
             if g == 'ddl':      # schema built by a DDL script (can do what SDL cannot, e.g. no `default`)
                 orig = R.replay_ddl(sdl, {None: 'default'})
@@ -1537,7 +1613,7 @@ def run(ctx: core.Ctx):
             elif g == 'dep':    # SDL; only the context set differs
                 g = None
                 is_dep = True
-                orig = R.load(sdl)
+                orig, via_fallback = load_robust(R, sdl, stats)
             elif g == 'scope':  # unqualified DDL applied under the module being populated
                 g = None
                 build = 'scope'
@@ -1549,10 +1625,13 @@ def run(ctx: core.Ctx):
                              f'{stmt_[:200]} -- {err_}',
                              {'schema': tag, 'sdl': f'# module {mod_}\n{stmt_}', 'build': 'scope'}, no_input=True)
             else:
-                orig = R.load(sdl)
+                orig, via_fallback = load_robust(R, sdl, stats)
         except Exception as e:
             # every schema of the generator / corpus is accepted by the unchanged tree (measured on
-            # 1000+ schemas): a rejection means the loader changed
+            # 1000+ schemas): a rejection — by apply_sdl AND declaration by declaration as DDL in
+            # the (referenced-first) document order — means the loader changed.  A text that only
+            # apply_sdl rejects is an order-dependence of SDL loading (C11's property): the schema is
+            # then obtained through the DDL fallback and C03's own oracles run on it.
             rejected += 1
             stats['schema rejected by the real loader: ' + type(e).__name__] += 1
             ctx.fail(f'loader-rejects:{tag}:{digest(sdl)}',
@@ -1708,7 +1787,7 @@ def run(ctx: core.Ctx):
                           'modaliases': {('null' if k is None else k): v for k, v in ma.items()},
                           'outcome': coarse, 'detail': det, 'text': texts[lang][:4000]}
                 if coarse == 'error' and lang == 'sdl' and not is_hostile and not migration_broken \
-                        and build == 'sdl':
+                        and build == 'sdl' and not via_fallback:
                     # is it the describe text, or does migrating to this schema fail anyway?
                     try:
                         R.replay_sdl(sdl, ma)
@@ -1769,6 +1848,9 @@ def run(ctx: core.Ctx):
                 name_lines += 1
             timing['name cases'] += time.time() - t0
 
+    if prev_tag is not None:
+        case_time[prev_tag] = round(time.time() - t_case, 1)
+    ctx.log('slowest cases:', sorted(case_time.items(), key=lambda kv: -kv[1])[:8])
     ctx.log(f'{len(cases)} schemas ({rejected} rejected), {n_eval} replays, {name_lines} name lookups; '
             f'real side {time.time() - t_start:.0f}s; timing {dict((k, round(v, 1)) for k, v in timing.items())}')
 
@@ -1833,6 +1915,7 @@ def run(ctx: core.Ctx):
         'disagreements_model_vs_impl': n_dis,
         'timing_s': {k: round(v, 1) for k, v in timing.items()},
         'text_scope_analysis': dict(scope_stats),
+        'seconds_per_case': case_time,
         'std_schema': R.env.std_info(),
         'exhaustive': False,
         'correspondence': 'real ddl_text_from_schema/sdl_text_from_schema + real apply under modaliases vs '
